@@ -156,7 +156,7 @@ def k_engine(params):
                         break
                 if slope < 1.0 and good[-1] > 1e-9:
                     V("energy_ladder", "max |H_cm - h0| over the dt ladder %s is %s: exponent %.2f < 2 [%s]" % (params["dts"], ["%.2e" % e for e in good], slope, "%s strategy=%s n_iter=%d" % (tag0, strategy, n_iter)), good, 2)
-    return res(evals=n, nontrivial=nontriv, viol=list(viol.values()), stats={"map_points_checked": nontriv}, sample={"tag": tag0, "computations": n, "map_points": nontriv})
+    return res(evals=n + nontriv, nontrivial=nontriv, viol=list(viol.values()), stats={"map_points_checked": nontriv, "map_computations": n}, sample={"tag": tag0, "computations": n, "map_points": nontriv})
 
 
 # ------------------------------------------------------------------ genuine returns
